@@ -134,8 +134,23 @@ def mutate(rng, l):
     return "%s %s %s" % (t[0], t[1], ",".join(ops))
 
 
+def header_update_cases(rng, tier):
+    """a multi-slot entry gets its header updated by a 304, then eviction pressure recycles the stale anchor while readers keep hitting the entry"""
+    for store in ("rock", "shm", "rock", "shm") if tier == "thorough" else ("rock", "shm"):
+        n = rng.choice([70000, 45000, 130000])
+        ops = ["U0.%d.%d.%d.0.0" % (n, rng.below(1000), rng.choice([0, 1])), "R0.0", "V0", "R0.0"]
+        for _ in range(8):
+            ops += ["E%d" % rng.choice([4, 6, 8]), "R0.0"]
+        yield "%s 1 %s" % (store, ",".join(ops))
+        ops = ["U0.%d.%d.0.0.0" % (n, rng.below(1000)), "U1.%d.%d.1.0.0" % (n // 2, rng.below(1000)), "V0", "V1", "R0.0", "R1.0"]
+        for _ in range(6):
+            ops += ["E%d" % rng.choice([5, 7]), "R0.0", "R1.0"]
+        yield "%s 2 %s" % (store, ",".join(ops))
+
+
 def cases(rng, tier):
     yield from boundary_cases()
+    yield from header_update_cases(rng, tier)
     yield from exhaustive_cases(tier)
     n = 90 if tier == "thorough" else 9
     base = []
